@@ -1,6 +1,7 @@
 package ingestx
 
 import (
+	"time"
 	"bytes"
 	"crypto/sha1"
 	"encoding/csv"
@@ -582,6 +583,40 @@ func cliCase(t *Table, cs CaseSpec, rng *rand.Rand) (events []interface{}) {
 		c3, _ := head()
 		if unique {
 			events = append(events, map[string]interface{}{"op": "recommit", "step": "changed", "samecontent": false, "newcommit": c3 != c2, "err": ""})
+		}
+	}
+	// the commit cache: commits driven by the branch configuration reuse a cached temporary commit when the
+	// file is older than it.  After the configured key is narrowed to its first column, the same unchanged
+	// file must be committed as a table with THAT key (other key => other table, other identifier).
+	if len(t.PK) >= 2 && unique {
+		old := time.Now().Add(-time.Hour)
+		os.Chtimes(fp, old, old)
+		if out, err := r.Run(nil, "commit", "main", "cached", "-n", "1"); err != nil {
+			return fail("commit-from-config", err, out)
+		}
+		os.Chtimes(fp, old, old)
+		if out, err := r.Run(nil, "commit", "main", "cached again", "-n", "1"); err != nil {
+			return fail("commit-from-config", err, out)
+		}
+		if out, err := r.Run(nil, "config", "set", "branch.main.primaryKey", t.PK[0]); err != nil {
+			return fail("config-set-primary-key", err, out)
+		}
+		if out, err := r.Run(nil, "commit", "main", "narrowed key", "-n", "1"); err != nil {
+			return fail("commit-narrowed-key", err, out)
+		}
+		// the narrowed key may hold duplicates: the table is judged as the table of the narrowed key
+		narrowed := *t
+		narrowed.PK = []string{t.PK[0]}
+		db, rs, closeFn, err := r.Open()
+		if err == nil {
+			if sum, err := ref.GetHead(rs, "main"); err == nil {
+				if com, err := objects.GetCommit(db, sum); err == nil {
+					cur, _ := parseCSV(tbl.CSV(append([][]string{t.Cols}, rows...), 0), 0)
+					cfg := Cfg{Seed: cs.Seed, Variant: 202, Kind: "cli", Workers: 1, Cols: t.Cols, PK: narrowed.PK, NRows: len(rows), Delim: ","}
+					events = append(events, Project(&narrowed, cur[1:], db, com.Table, nil, cfg))
+				}
+			}
+			closeFn()
 		}
 	}
 	return events
